@@ -274,6 +274,11 @@ def translate_cmdseq() -> tuple[str, dict]:
         f'Definition cs_write_order : list fkey := [{"; ".join(write_order)}].',
         f'Definition cs_parse_order : list fkey := [{"; ".join(parse_order)}].',
         f'Definition cs_threshold_is_strict : bool := {"true" if thr[0] == "Lt" else "false"}.',
+        'Definition fkey_eqb (a b : fkey) : bool := match a, b with KEnabled, KEnabled | KSpecial, KSpecial | KExe, KExe | KArgs, KArgs '
+        '| KLong, KLong | KEnsureCheck, KEnsureCheck | KEnsureFile, KEnsureFile | KProcWin, KProcWin | KNoWait, KNoWait => true | _, _ => false end.',
+        'Fixpoint fkeys_eqb (a b : list fkey) : bool := match a, b with [], [] => true | x :: a\', y :: b\' => fkey_eqb x y && fkeys_eqb a\' b\' | _, _ => false end.',
+        '(* the order in which the model fills the record *)',
+        'Definition cs_model_order : list fkey := [KEnabled; KSpecial; KExe; KArgs; KLong; KEnsureCheck; KEnsureFile; KProcWin; KNoWait].',
         'Definition gen_cfg : cfg := {|',
         f'  c_header := {_coq_bytes(header)};',
         f'  c_version_bits := {version_bits}%N;   (* struct.pack("<f", {version_src!r}) *)',
